@@ -98,6 +98,9 @@ def run_c11(ctx: Ctx, M: AnnotateModel):
         why = f"call {args}, helper parameters {ps}, helper emits {order} around each tag"
     ctx.ob("C11-R2", f"{q}/wrap-argument-order", ok,
            f"the annotation must be closed (after) before each tag and reopened (before) after it: {why}", node=call or M.LOOP, mod=m)
+    ctx.ob("C11-R2", "utils.wrap_html_tags/recognises-every-tag", M.wrap_cover[0],
+           f"wrap mode closes and reopens the annotation around every tag only if the helper's pattern matches every tag token "
+           f"(language inclusion L(</?[A-Za-z_:][^<>]*>) <= L(pattern), decided on the two automata): {M.wrap_cover[1]}", node=M.wrap_fn or f, mod=M.um if M.wrap_fn is not None else m)
     # R-C11-4 the balance oracle fails closed
     name = getattr(M, "balance_test_name", None)
     fn = ctx.repo.func(f"utils.{name}") if name else None
